@@ -340,10 +340,13 @@ def c06(chk):
                  (2, 1, "e2", [("fock", 12, ("dyne", "count", "layout")), ("fockmixed", 10, ("dyne", "layout", "count")), ("gaussian", None, ("dyne", "layout")), ("bosonic", None, ("dyne",))]),
                  (3, 1, "x3", [("gaussian", None, ("dyne", "layout")), ("bosonic", None, ("dyne", "layout"))]), (3, 0, "x3", [("fock", 9, ("dyne", "layout"))]),
                  (3, 0, "p3", [("fock", 9, ("dyne", "count", "layout")), ("gaussian", None, ("dyne", "layout"))])]
+    mix_items = []
     for (n, depth, prefix, cfgs) in plans:
         r = chk.tlc("MC_Meas", spec="SpecM", constants={"N": n, "Depth": depth, "AlphaId": "d", "PrefixId": prefix, "KNum": 1, "KDen": 1, "EMIT": True},
                     invariants=["MeasuredModeReset", "ConditionalPhysical", "HetPhysical", "BornVarPositive", "CovIndependentOfOutcome", "EmitMeas"])
         items = r.json
+        if len(mix_items) < 4:
+            mix_items += items[:2]
         for cfg, cutoff, parts in cfgs:
             sel = [it for it in items if lattice.supported(it["hist"], cfg)]
             _CFG.update(cfg=cfg, cutoff=cutoff, n=n, parts=parts)
@@ -361,7 +364,87 @@ def c06(chk):
                     judge(chk, sc, cfg, it, rec, det0)
             chk.sample({"config": cfg, "pre_state_program": short(sel[0]["hist"]), "hom_cases": len(sel[0]["hom"]), "tuples": [t["ms"] for t in sel[0]["tuples"]][:6]})
     cat_measurements(chk)
+    bosonic_mixtures(chk, mix_items)
     chk.exhaustive = True
+
+
+def _mixture_case(arg):
+    """worker: homodyne of a classical mixture of two single-mode Gaussian states on the bosonic simulator with the generators
+    intercepted: the component must be drawn with the mixture weights and the outcome from that component's Born law"""
+    import strawberryfields as sf
+    from strawberryfields import ops
+    comps, w, ang, pick = arg
+    try:
+        means = np.array([[c["mu"][0], c["mu"][1]] for c in comps], dtype=float)
+        covs = np.array([c["V"] for c in comps], dtype=float)
+        prog = sf.Program(1)
+        with prog.context as q:
+            ops.Bosonic(np.array(w, dtype=float), means, covs) | q[0]
+            ops.MeasureHomodyne(ang) | q[0]
+        rec = {"choice": [], "normal": []}
+
+        def choice(a, size=None, replace=True, p=None):
+            rec["choice"].append([float(x) for x in np.asarray(p).ravel()])
+            r = np.asarray(a)[pick] if np.ndim(a) else pick
+            return np.array([r]) if size is not None else r
+
+        def mvn(mean, cov, size=None, **kw):
+            rec["normal"].append([[float(x) for x in np.ravel(mean)], [float(x) for x in np.ravel(cov)]])
+            out = np.array(mean, dtype=float)            # the centre of the component: always accepted
+            return out if size is None else np.tile(out, (size if np.ndim(size) == 0 else int(np.prod(size)), 1))
+        with Patch([(np.random, "choice", choice), (np.random, "multivariate_normal", mvn)]):
+            res = sf.Engine("bosonic").run(prog)
+        rec["sample"] = float(np.ravel(res.samples)[0])
+        rec["ok"] = True
+        return rec
+    except Exception as e:  # noqa
+        return {"ok": False, "err": type(e).__name__, "msg": str(e)[:300], "tb": traceback.format_exc()[-800:]}
+
+
+def bosonic_mixtures(chk, items):
+    """classical mixtures (states with several Gaussian components of different covariance): the exact Born law of a mixture is the
+    mixture of the components' Born laws, which MC_Meas computed for every reduced lattice state"""
+    singles = []
+    for it in items:
+        for t in it["tuples"]:
+            if len(t["ms"]) == 1:
+                r = t["red"]
+                singles.append({"mu": [_f(x) for x in r["mu"]], "V": [[_f(x) for x in row] for row in r["V"]]})
+    singles = singles[:6]
+    jobs = []
+    for i in range(len(singles)):
+        for j in range(len(singles)):
+            if i == j or singles[i]["V"] == singles[j]["V"]:
+                continue
+            for w in ((0.25, 0.75), (0.5, 0.5)):
+                for ang in (0.0, math.atan2(4, 3), math.pi / 2):
+                    for pick in (0, 1):
+                        jobs.append(([singles[i], singles[j]], w, ang, pick))
+    jobs = jobs[:: max(1, len(jobs) // (120 if chk.tier == "quick" else 1200))]
+    res = common.pmap(_mixture_case, jobs, chunksize=4)
+    for (comps, w, ang, pick), o in zip(jobs, res):
+        chk.traces += 1
+        chk.count(key=("mixture", json.dumps([comps, w, ang, pick])), nontrivial=True)
+        f = {"backend": "bosonic", "kind": "hom", "state": "mixture"}
+        det = {"config": "bosonic", "components": comps, "weights": w, "angle": ang, "forced_component": pick}
+        if not o["ok"]:
+            chk.violation("UnexpectedError", dict(f, error=o["err"]), dict(det, msg=o["msg"], tb=o.get("tb")))
+            continue
+        if not o["choice"] or not o["normal"]:
+            chk.violation("BornDistribution", f, dict(det, info="the generators were not consulted (%d / %d calls)" % (len(o["choice"]), len(o["normal"]))))
+            continue
+        p = o["choice"][0]
+        if len(p) != 2 or max(abs(p[0] - w[0]), abs(p[1] - w[1])) > 1e-9:
+            chk.violation("BornDistribution", f, dict(det, info="component probabilities %s, mixture weights %s" % (p, list(w))))
+            continue
+        c, s_ = math.cos(ang), math.sin(ang)
+        k = comps[pick]
+        bm = c * k["mu"][0] + s_ * k["mu"][1]
+        bv = c * c * k["V"][0][0] + s_ * s_ * k["V"][1][1] + 2 * c * s_ * k["V"][0][1]
+        gm, gc = o["normal"][0]
+        if abs(gm[0] - bm) > 1e-6 * (1 + abs(bm)) or abs(gc[0] - bv) > 1e-3 * (1 + bv):
+            chk.violation("BornDistribution", f, dict(det, info="component law N(%.6g, %.6g), Born law of the component N(%.6g, %.6g)" % (gm[0], gc[0], bm, bv)))
+    chk.notes["bosonic_mixture_cases"] = len(jobs)
 
 
 def cat_measurements(chk):
